@@ -79,7 +79,8 @@ NOISE_TEXTS = [
 PARAM_MENU = [["language", ["s", "de"]], ["ALTREP", ["s", "http://example.com/a,b"]], ["X-p1", ["s", "v1"]],
               ["x-P2", ["s", "semi;colon"]], ["Cn", ["s", "Max Rasmussen"]], ["ROLE", ["s", "REQ-PARTICIPANT"]],
               ["member", ["list", [["s", "mailto:a@x.org"], ["s", "mailto:b@x.org"]]]],
-              ["A-FIRST", ["s", "1"]], ["z-last", ["s", "2"]], ["RELATED", ["s", "END"]]]
+              ["A-FIRST", ["s", "1"]], ["z-last", ["s", "2"]], ["RELATED", ["s", "END"]],
+              ["X-SEAT-1", ["s", "a"]], ["X-SEAT-01", ["s", "b"]], ["X-SEAT-10", ["s", "c"]], ["x-seat-2", ["s", "d"]]]
 
 
 # ---------------------------------------------------------------------------
@@ -183,7 +184,8 @@ PROP_MENU = {
     "VEVENT": ["SUMMARY", "DTSTART", "DTEND", "DURATION", "DTSTAMP", "UID", "RECURRENCE-ID", "SEQUENCE", "RRULE",
                "RDATE", "EXDATE", "COMMENT", "ATTENDEE", "ORGANIZER", "CATEGORIES", "GEO", "URL", "LOCATION",
                "DESCRIPTION", "CREATED", "X-MULTI", "x-multi", "X-Foo", "x-foo", "a-first", "Zz-last", "ATTACH",
-               "X-BIN", "X-BOOL", "X-FLOAT", "X-TIME"],
+               "X-BIN", "X-BOOL", "X-FLOAT", "X-TIME", "X-ROOM-7", "X-ROOM-07", "X-ROOM-10", "X-ITEM-2", "x-item-002",
+               "X-2", "X-10"],
     "VTODO": ["SUMMARY", "DTSTART", "DUE", "DURATION", "DTSTAMP", "UID", "RRULE", "RDATE", "COMMENT", "PRIORITY",
               "PERCENT-COMPLETE", "ATTENDEE", "X-Foo", "CATEGORIES"],
     "VJOURNAL": ["SUMMARY", "DTSTART", "DESCRIPTION", "COMMENT", "UID", "RDATE", "EXDATE", "X-Foo"],
